@@ -34,6 +34,7 @@ struct module {
     void *handle;
     int is_backend;
     int visited;
+    int finished;
 };
 
 static struct set modules;
@@ -199,7 +200,8 @@ static int module_dfs(struct module *module, int visit)
     void (*func)(struct module *self);
     int res;
 
-    if (module->visited && (module->visited < visit))
+    if (module->finished
+        || (module->visited && (module->visited < visit)))
         return 0;
     module->visited = visit;
 
@@ -207,7 +209,7 @@ static int module_dfs(struct module *module, int visit)
         struct module *other = module_get(module->depends.vec[ii]);
         if (!other)
             continue;
-        if (other->visited == visit)
+        if ((other->visited == visit) && !other->finished)
             return -1;
         res = module_dfs(other, visit);
         if (res == -1)
@@ -219,6 +221,7 @@ static int module_dfs(struct module *module, int visit)
     if (module->handle
         && (func = dlsym(module->handle, "module_post_init")))
         func(module);
+    module->finished = 1;
     return 0;
 }
 
